@@ -386,6 +386,21 @@ func init() {
 				return "ok " + strings.Join(p, ",")
 			}},
 			// canonical set of reported names: normalised, reserved names dropped, sorted
+			// the rendering of a word and of the same word with every undeclared bit cleared: bits no constant of the
+			// family names have no say in the decomposition, the empty case included
+			{Name: "c19.strmask",
+				ReadBack: func(a []string, out string) (m, s []string) {
+					f := strings.Fields(out)
+					if len(f) == 3 && f[0] == "ok" {
+						return nil, []string{f[1], f[2]}
+					}
+					return nil, []string{"none", "none"}
+				},
+				Impl: func(a []string) string {
+					b := fam(a[0])
+					w, mask := c19U(a[1]), c19U(a[2])
+					return "ok " + hx([]byte(b.str(w))) + " " + hx([]byte(b.str(w&mask)))
+				}},
 			{Name: "c19.set", Impl: func(a []string) string {
 				fam(a[0])
 				var l []string
@@ -452,6 +467,10 @@ func genC19(r *Rng, tier string) []Case {
 		for _, row := range f.Rows {
 			named |= row.Test.Mask
 		}
+		var declared uint64 // every bit some declared constant of the family has (reserved ones included)
+		for _, c := range f.Consts {
+			declared |= c.Value
+		}
 		word := func(w uint64, tag string) {
 			ws := u(w)
 			if f.Decomp != "" {
@@ -465,6 +484,10 @@ func genC19(r *Rng, tier string) []Case {
 					cs = append(cs, Case{Op: "c19.getflags", MArgs: []string{f.ID, ws}, SArgs: []string{f.ID, ws}, Tag: f.ID + ".getflags." + tag})
 				}
 				cs = append(cs, Case{Op: "c19.set", MArgs: []string{f.ID, ws}, SArgs: []string{f.ID, ws}, NoM: true, Tag: f.ID + ".set." + tag})
+				if b.str != nil && w&^declared != 0 {
+					sa := []string{f.ID, ws, u(declared)}
+					cs = append(cs, Case{Op: "c19.strmask", MArgs: sa, SArgs: sa, NoM: true, Tag: f.ID + ".strmask." + tag})
+				}
 			}
 		}
 		pred := func(w uint64, tag string) {
